@@ -175,7 +175,7 @@ LEVELS = ["structure", "types", "radii", "split"]
 
 
 def match(ref: dict, impl: List[dict], ncomp: int, max_branch_len: Optional[float], min_radius: Optional[float],
-          level: str, rtol_len: float = 1e-9, rtol_rad: float = 1e-6) -> bool:
+          level: str, rtol_len: float = 1e-9, rtol_rad: float = 1e-4) -> bool:
     """Is the implementation's branch forest (junction already contracted) a rendering of the reference sections?
 
     impl: list of {"parent": int, "length": float, "type": int|None, "radii": [ncomp floats]}.
@@ -184,6 +184,9 @@ def match(ref: dict, impl: List[dict], ncomp: int, max_branch_len: Optional[floa
     level "structure": lengths and parent relation; "types": + SWC type of every branch; "radii": + radii at
     compartment centres; "split": + R6 (sections above max_branch_len are cut, at traced points, into pieces
     below max_branch_len when every traced segment is).
+    Tolerances: lengths 1e-9 relative (float64 sums of square roots, error ~1e-15); radii 1e-4*(1+r): the reader
+    moves the first/last interpolation knot by 1e-8 of the branch, which changes radii by <= ~3e-7 um here, while
+    a wrong knot or centre changes them by >= 1e-2 um with the generic radii used.
     """
     lv = LEVELS.index(level)
     secs = ref["sections"]
